@@ -110,14 +110,25 @@ pub fn payload(tok: &str) -> Vec<u8> {
     }
 }
 
-/// short digest for long byte strings: `len:fnv64`
+/// short digest for long byte strings: `len:crc32` (IEEE, as zlib.crc32)
 pub fn digest(b: &[u8]) -> String {
-    let mut h: u64 = 0xcbf29ce484222325;
+    static TABLE: std::sync::OnceLock<[u32; 256]> = std::sync::OnceLock::new();
+    let t = TABLE.get_or_init(|| {
+        let mut t = [0u32; 256];
+        for i in 0..256u32 {
+            let mut c = i;
+            for _ in 0..8 {
+                c = if c & 1 != 0 { 0xEDB88320 ^ (c >> 1) } else { c >> 1 };
+            }
+            t[i as usize] = c;
+        }
+        t
+    });
+    let mut c = 0xFFFFFFFFu32;
     for x in b {
-        h ^= *x as u64;
-        h = h.wrapping_mul(0x100000001b3);
+        c = t[((c ^ *x as u32) & 0xFF) as usize] ^ (c >> 8);
     }
-    format!("{}:{:016x}", b.len(), h)
+    format!("{}:{:08x}", b.len(), c ^ 0xFFFFFFFF)
 }
 
 /// bytes as hex when short, digest otherwise (the model side prints the same)
